@@ -12,7 +12,7 @@ EXTENDS SummaryStream, Summary, TLC, Json, IOUtils
 
 Rec == ndJsonDeserialize(IOEnv.TRACE)
 
-RealValid(rec) == Parse(Decode(rec))[1] = "ok"
+RealValid(rec) == Nth(Parse(Decode(rec)), 1) = "ok"
 
 VARIABLES k, l, cum, n, failed, info     \* cum: number of bytes written so far
 vars == <<k, l, cum, n, failed, info>>
@@ -38,7 +38,7 @@ TraceWrite ==
     /\ l' = l + 1 /\ UNCHANGED <<k, info>>
 
 \* the printed form of a well-formed record, as bytes
-Printed(rec) == Encode(Render(Parse(Decode(rec))[2]))
+Printed(rec) == Encode(Render(Nth(Parse(Decode(rec)), 2)))
 EndOK ==
     /\ ShapeOK
     /\ (failed \/ l = Len(Chunks) + 1)                         \* every chunk was written unless one failed
